@@ -2,7 +2,17 @@
 REAL_TIMER = ['github.com/acquirecloud/golibs/timeout (rewritten copy of the current working tree: cooperative mutex, tape-driven select, zsimrt.Go)']
 SIM_COMMON = ['goroutine scheduling (seeded scheduler over zsimrt yields)', 'clock and timers (testing/synctest fake clock, moved only by the scheduler)']
 
+REAL_LOCK = ['kvs/distlock (rewritten copy)', 'kvs/inmem (rewritten copy) as the shared storage', 'timeout (rewritten copy) for lease timers', 'chans (rewritten copy)']
+SIM_LOCK = SIM_COMMON + ['storage seam: per-node kvs.Storage wrapper that parks before and after every call and injects request-lost / reply-lost / partition / stall faults by call ordinal', 'context cancellation (canceller tasks released by the scheduler, or simulated timers)']
+ASSUME_LOCK = ['scheduler fairness bound F', 'interleavings at yield granularity (storage call boundaries, lock/channel/atomic/select inside distlock, inmem, timeout)', 'per-step jitter is capped at lease/(16*F) so the scheduler cannot starve a renewal past its lease']
+
 PROPS = {
+    'C01': dict(world='lock', quick=dict(budget_s=22), thorough=dict(budget_s=600), real=REAL_LOCK, simulated=SIM_LOCK,
+                assumptions=ASSUME_LOCK + ['exclusion is judged only while the lease written by the holder is still valid (precondition of the property); runs where it lapsed are counted precondition_void']),
+    'C04': dict(world='lock', quick=dict(budget_s=22), thorough=dict(budget_s=600), real=REAL_LOCK, simulated=SIM_LOCK,
+                assumptions=ASSUME_LOCK + ['no storage faults in this world; progress is judged after 3 x lease + the program\'s own sleeps + 1 min of simulated time without any completed operation, or at the quiet horizon']),
+    'C05': dict(world='lock', quick=dict(budget_s=22), thorough=dict(budget_s=600), real=REAL_LOCK, simulated=SIM_LOCK,
+                assumptions=ASSUME_LOCK + ['take-over after holder death is awaited 2 x lease (the property says about one lease period)', 'only request-lost renewal errors are injected (a reply-lost renewal changes the version behind the holder\'s back, which the statement does not cover)']),
     'C12': dict(world='timer',
                 quick=dict(budget_s=20), thorough=dict(budget_s=600),
                 real=REAL_TIMER, simulated=SIM_COMMON + ['callbacks (harness functions that record, stall simulated time, call Call/Cancel)'],
